@@ -283,7 +283,7 @@ def run_check(prop, modname, tier, seed):
                    'samples': acc.samples, 'notes': acc.notes, 'assumes': acc.assumes, 'xchecks': acc.xchecks})
         # ---- model validation: a few completed paths of this family are re-run on the real OS; every
         # obligation that held symbolically must hold there too (otherwise the environment model is wrong)
-        nval = int(os.environ.get('VERIF_REAL_VALIDATIONS', '3' if tier == 'quick' else '6'))
+        nval = int(os.environ.get('VERIF_REAL_VALIDATIONS', '2' if tier == 'quick' else '6'))
         if not acc.violations:
             for rm in acc.real_models[:nval]:
                 rec = {'check': '(model validation)', 'sig': ['(model validation)'], 'info': None,
